@@ -14,7 +14,7 @@ try:
         if s.count(old) < 1:
             print("PATTERN NOT FOUND:", old); sys.exit(3)
         s = s.replace(old, new, 1)
-        compile(s, p, "exec")
+        if p.endswith(".py"): compile(s, p, "exec")
         open(p, "w").write(s)
     for pr in props:
         r = subprocess.run(["/venv/bin/python", "-m", "sa", pr, "--src", os.path.join(d, "src"), "--replay", "/dev/null"] if False else
